@@ -236,12 +236,27 @@ def _gpow(z, n):
 
 def v_pow(a, e):
     """a ** e, principal value"""
-    if e.ex is not None and e.ex[1] == 0 and e.ex[0].denominator == 1 and e.amp == 0:
+    int_like = e.ex is not None and e.ex[1] == 0 and e.ex[0].denominator == 1
+    if int_like:
         n = int(e.ex[0])
-        if n < 0 and a.is_zero():
-            raise MathErr('divzero')
-        if n == 0:
+        exact_e = e.amp == 0
+        if a.is_zero():
+            if n > 0:
+                return V.exact(0, 0, None, a.ct or e.ct)
+            if n < 0:
+                raise MathErr('divzero')
+            if exact_e:
+                return V.exact(1, 0, None, a.ct or e.ct)
+            raise Skip('zero-test on inexact data')         # 0 ** (something that may or may not be exactly 0)
+        if n == 0 and exact_e:
             return V.exact(1, 0, None, a.ct or e.ct)
+        # an exponent that is an integer only nominally (computed inexactly) may be off by an ulp in floating point:
+        # same value within the tolerance, but a negative base then gives a Python complex -> conservatively complex-typed
+        ct = a.ct or e.ct or ((not exact_e) and a.ap.real < 0)
+        try:
+            extra = 0.0 if exact_e else abs(n) * abs(cmath.log(a.ap)) * e.amp
+        except ValueError:
+            raise Skip('range')
         if a.ex is not None:
             bits = max(x.numerator.bit_length() + x.denominator.bit_length() for x in a.ex)
             if abs(n) * bits > 20000:
@@ -254,21 +269,23 @@ def v_pow(a, e):
             if n < 0:
                 d = z[0] * z[0] + z[1] * z[1]
                 z = (z[0] / d, -z[1] / d)
-            return _mk(z, None, abs(n) * (a.amp + 2), a.amp == 0, a.ct or e.ct)
+            return _mk(z, None, abs(n) * (a.amp + 2) + extra, a.amp == 0 and exact_e, ct)
         try:
             big = abs(a.ap) ** abs(n)
             ap = (a.ap ** n) if (a.ct or e.ct) else complex(a.ap.real ** n)
         except (OverflowError, ZeroDivisionError):
             raise Skip('range')
         note_magnitude(big)
-        return V(None, _fin(ap), abs(n) * (a.amp + 2), a.ct or e.ct)
-    # non-integer (or inexact) exponent: principal value exp(e * log a), in floating point
+        return V(None, _fin(ap), abs(n) * (a.amp + 2) + extra, ct)
+    # non-integer exponent: principal value exp(e * log a), in floating point
     if a.is_zero():
-        if e.is_real() and e.ap.real > 1e-9:
+        known = e.ex is not None and e.amp == 0
+        im_zero = (e.ex[1] == 0) if e.ex is not None else (e.ap.imag == 0)
+        if im_zero and e.ap.real > 1e-9:
             return V.exact(0, 0, None, a.ct or e.ct)
-        if e.amp > 0 and abs(e.ap) < 1e-9:
-            raise Skip('zero-test on inexact data')         # 0 ** (something that may or may not be exactly 0)
-        raise MathErr('divzero')
+        if known or (abs(e.ap.imag) > 1e-6 * abs(e.ap.real) and abs(e.ap) > 1e-9) or (im_zero and e.ap.real < -1e-9):
+            raise MathErr('divzero')
+        raise Skip('zero-test on inexact data')
     near_cut = a.ap.real < 0 and abs(a.ap.imag) <= 1e-6 * abs(a.ap.real)
     if near_cut and a.ct:
         raise Skip('branch cut')        # a complex on the negative real axis: the sign of its zero imaginary part decides
@@ -534,7 +551,7 @@ def apply_fn(name, args):
             n, d = a.ex[0].numerator, a.ex[0].denominator
             rn, rd = math.isqrt(n), math.isqrt(d)
             if rn * rn == n and rd * rd == d:
-                return V.exact(Fraction(rn, rd))
+                return V.exact(Fraction(rn, rd), 0, None, a.ct)
         if a.is_zero():
             return V.exact(0, 0, None, a.ct)
         if a.ct and a.ap.real < 0 and abs(a.ap.imag) <= 1e-6 * abs(a.ap.real):
@@ -1394,6 +1411,11 @@ def check_value(r, exp):
         if r['status'] == 'exc' and r['cls'].startswith('ESCAPED'):
             return 'non-library exception %r' % (r['exc'],)
         return None
+    if r['status'] == 'exc' and r['cls'] == 'FunctionError':
+        import re as _re
+        m = _re.search(r'(?:evaluating|passed to) ([^\s(]+)\(', str(r['exc']))
+        if m and m.group(1) in DEFAULT_USED:
+            return None         # a library function refusing its (type of) argument is C15's subject, not the grammar's
     if r['status'] != 'ret':
         return 'expected a value, got %s %r' % (r['cls'], r.get('exc'))
     if exp[0] == 'array':
